@@ -689,13 +689,6 @@ Definition dec_doc (s : sexp) : option doc_obs :=
   | _ => None
   end.
 
-(** a custom scalar of the original that rejects some literals is, rebuilt, one that accepts
-    all: compare with that forced on both sides *)
-Definition force_accept (S : schema) : schema :=
-  {| types := map (fun t => (fst t, match snd t with NScalar false _ r d => NScalar false true r d | x => x end)) (types S);
-     query := query S; mutation := mutation S; subscription := subscription S; additional := additional S;
-     directives := directives S |}.
-
 Fixpoint docs_oracle (ds : list doc_obs) : option string :=
   match ds with
   | [] => None
